@@ -207,10 +207,22 @@ def run(ctx, rep):
         return lambda x: x[0] == "call" and bool(re.search(rx, x[1]))
 
     (st, conds) = store_conds("version")
-    rep.check("C18.c", "version/no-downgrade/every-path", only_via(st[0], is_cmp(("Lt",), {"version", "set_version"}, {"version"}), False), where=span_str(st[2][3]),
-              what="EVERY path that stores config.version has seen `version < config.version` evaluate to false")
-    rep.check("C18.c", "version/range/every-path", only_via(st[0], is_call(r"::contains$"), True), where=span_str(st[2][3]),
-              what="every path that stores config.version has seen the allowed-version range contain it")
+    # decided for sample values of (requested version, current version), through helper functions: the store is reached
+    # exactly for 1 <= new <= 2 and new >= current (whatever the spelling / placement of the tests)
+    is_new = lambda x: "'set_version'" in repr(x)
+    is_cur = lambda x: isinstance(x, tuple) and x and x[0] in ("path", "proj") and "'version'" in repr(x) and "'set_version'" not in repr(x) and "('arg', 2)" in repr(x)
+    gotv = {}
+    for n_ in (0, 1, 2, 3):
+        for c_ in (1, 2):
+            gotv[(n_, c_)] = st[0] in reachable_eval(prog, A, num_eval([(is_new, n_), (is_cur, c_)]), depth=2)
+    okdown = all(gotv[(n_, c_)] == (n_ >= c_) for n_ in (1, 2) for c_ in (1, 2))
+    okrange = all(not gotv[(n_, c_)] for n_ in (0, 3) for c_ in (1, 2)) and any(gotv[(n_, c_)] for n_ in (1, 2) for c_ in (1, 2))
+    rep.check("C18.c", "version/no-downgrade/every-path", okdown, where=span_str(st[2][3]),
+              what="config.version is stored exactly when the requested version is not below the current one (evaluated for sample versions)" if okdown else
+                   f"config.version is stored for (requested, current) in {sorted(k for k, v in gotv.items() if v)}: a downgrade is accepted or an upgrade refused")
+    rep.check("C18.c", "version/range/every-path", okrange, where=span_str(st[2][3]),
+              what="config.version is never stored for versions outside 1..=2 (evaluated for sample versions)" if okrange else
+                   f"config.version is stored for (requested, current) in {sorted(k for k, v in gotv.items() if v)}: an unsupported version is accepted")
     (st2, _) = store_conds("compression")
     rep.check("C18.c", "compression/level-range/every-path", only_via(st2[0], is_call(r"::contains$"), True), where=span_str(st2[2][3]),
               what="every path that stores config.compression has seen zstd's level range contain it")
@@ -218,22 +230,17 @@ def run(ctx, rep):
     # decided for sample values (the spelling `> 100` / `>= 101` does not matter): stored exactly for percent <= 100
     SAMP = [0, 1, 50, 99, 100, 101, 150, 4000]
     isv = lambda fld: (lambda x: fld in repr(x))
-    got = {v: st3[0] in reachable_with_value(A, isv("set_min_packsize_tolerate_percent"), v) for v in SAMP}
+    got = {v: st3[0] in reachable_with_value(A, isv("set_min_packsize_tolerate_percent"), v, prog=prog) for v in SAMP}
     okmin = all(got[v] == (v <= 100) for v in SAMP)
     rep.check("C18.c", "min-percent/every-path", okmin, where=span_str(st3[2][3]),
               what="min_packsize_tolerate_percent is stored exactly for values <= 100 (evaluated for sample values)" if okmin else
                    f"min_packsize_tolerate_percent is stored for {[v for v in SAMP if got[v]]} (must be exactly the values <= 100)")
     (st4, _) = store_conds("max_packsize_tolerate_percent")
-    got4 = {v: st4[0] in reachable_with_value(A, isv("set_max_packsize_tolerate_percent"), v) for v in SAMP}
+    got4 = {v: st4[0] in reachable_with_value(A, isv("set_max_packsize_tolerate_percent"), v, prog=prog) for v in SAMP}
     okmax = all(got4[v] == (not (0 < v < 100)) for v in SAMP)
     rep.check("C18.c", "max-percent/every-path", okmax, where=span_str(st4[2][3]),
               what="max_packsize_tolerate_percent is stored exactly for 0 (no limit) and values >= 100 (evaluated for sample values)" if okmax else
                    f"max_packsize_tolerate_percent is stored for {[v for v in SAMP if got4[v]]} (must be exactly 0 and the values >= 100)")
-    rep.check("C18.c", "version/range", has_call(conds, r"RangeInclusive::<Idx>::contains$|RangeInclusive<.*>::contains$|::contains$", True), where=span_str(st[2][3]),
-              what="config.version is stored only if the allowed-version range contains it")
-    op = has_cmp(conds, ("Lt",), {"version", "set_version"}, {"version"}, False)
-    rep.check("C18.c", "version/no-downgrade", op is not None, where=span_str(st[2][3]),
-              what="config.version is stored only if `version < config.version` is false (downgrades are refused)")
     (st, conds) = store_conds("compression")
     rep.check("C18.c", "compression/level-range", has_call(conds, r"::contains$", True), where=span_str(st[2][3]), what="config.compression is stored only if zstd's level range contains it")
     rep.check("C18.c", "compression/v1", any(ex[0] == "bin" and ex[1] in ("Eq", "Ne") and "version" in expr_names(A, ex) for ex, _, _ in conds), where=span_str(st[2][3]),
